@@ -129,6 +129,7 @@ impl Lintable for FunctionBody
 		{
 			statement.lint(linter);
 		}
+		self.return_value.lint(linter);
 	}
 }
 
@@ -216,6 +217,9 @@ impl Lintable for Statement
 			} =>
 			{
 				linter.is_first_statement_of_branch = None;
+
+				condition.left.lint(linter);
+				condition.right.lint(linter);
 
 				linter.is_naked_branch = Some(NakedBranch {
 					location_of_condition: condition.location.clone(),
